@@ -6,6 +6,14 @@ claimed = subprocess.run([os.path.join(V, "check"), "--list"], stdout=subprocess
 
 # id -> (category, level text, level note, technique, design ref)
 T = {
+ "C17": ("exploration",
+         "Property testing (rapid state machine) over a real handshake, the real AsyncAdapter and a real TCP socket: generated positions of peer events (data, ping) and application calls (AsyncNextFrame/AsyncNextMessage, AsyncWrite/AsyncWriteFrame/AsyncFlush) relative to poll cycles, so that application writes overlap the read path's automatic control-reply flush; every user callback must run exactly once within a bounded number of PollOne calls, and the server-side byte stream must parse into the expected frames in order. Bounded search over schedules.",
+         "Trusts the raw harness server and the independent parser; messages <= 2 KiB (the adapter writes through blocking net.Conn.Write); one read and one application write outstanding at a time.",
+         "stateful property-based testing over real sockets with harness-chosen poll cycles (rapid)", "DESIGN.md §4 C17"),
+ "C18": ("exploration",
+         "Metamorphic property testing (rapid) of the opening handshake against a raw TCP server in the harness: response status, header set/order/case/whitespace, accept key, piggy-backed frames, segmentation and early close are generated; acceptance must equal the RFC predicate for every variant, the bytes after the response must all arrive as frames, and a re-handshaken stream must behave like a fresh one. Bounded search.",
+         "Trusts the harness server and independent accept-key computation; segments are separated by 3 ms pauses (a pause that fails to separate them only weakens the case).",
+         "metamorphic property-based testing against a scripted server (rapid)", "DESIGN.md §4 C18"),
  "C05": ("exploration",
          "Property testing (rapid-generated plans) of concurrent Post under the race detector: N poster goroutines with generated yield points and nesting (Post from posted handlers, from goroutines spawned by handlers) against a loop goroutine locked to its OS thread running a generated poll/run/arm/cancel script; exactly-once, loop-thread execution (gettid), per-poster order, wake-up of a blocked RunOne, deadlock watchdog, Pending()/Posted() at quiescence, and no data-race report in a -race build. The OS scheduler picks the interleavings: the data-race half is timing-independent, the rest statistical.",
          "Trusts the Go race detector (built with -gcflags=all=-d=checkptr=0 because checkptr aborts on the poller's unaligned slot pointer), gettid for thread identity and the 10 s watchdog (normal case < 100 ms).",
